@@ -158,688 +158,736 @@ int `crlf
 line` ,@tag( 1 ) Logon roots
     `// not a comment` , }
 ")).
-Eval vm_compute in ("<<<M1523>>>" ++ check (runes_of_ascii "// top
-options {
-    StringPrefixLenType = u64;
-    ArrayPrefixLenType = u32;// c9a
-    // c9b
-    FixedStringPadFromLeft = false;
-}// c14
-
-packet Party {
-    zchar[7] OrderId,// c22
-    InTail6 {
-        // c24
-        repeat char[1] msgKind,// c30
-        char[3] Tail,
-        char[3] Flags,// c40a
-        // c40b
-        i16 tag7,// c43a
-    },
-    @rightPad('0')
-    char[12] clOrdID,// c54
-}
-
-packet Quote {
-    @leftPad('0')
-    // c62
-    char[11] price,// c67
-    repeat InCount7 {
-        // c70
-        i32 x,// c73a
-        // c73b
-        Party,// c75a
-        // c75b
-        u8 Ref,
-        u8 tag7,// c81
-    },
-    // c83
-    char[] seqNo,
-    // c86
-    Party,// c88
-}// c89
-
-packet Logon {
-    @rightPad('\x00')
-    // c96a
-    // c96b
-    char[5] Note,
-    i16 sym,// c104a
-    // c104b
-    InPrice72 {
-        // c106
-        char[9] Ref,
-        // c111
-        zchar[1] venue,// c116a
-    },// c118a
-    // c118b
-    char[] clOrdID,// c121a
-}// c122
-
-root packet Reject {
-    // c126
-    repeat Logon,// c129a
-    @leftPad(' ')
-    // c133a
-    // c133b
-    char[4] seqNo,
-    // c138
-    zchar[5] Acct,// c143
-    u32 x,// c146
-    u16 f1 @lengthOf(Body),
-    match x as Body {
-        // c157a
-        // c157b
-        [169, 74] : Quote,
-        // c165
-        45 : Party,
-        // c169
-        7 : Logon,
-    },
-}// c176a")).
-Eval vm_compute in ("<<<M134>>>" ++ check (runes_of_ascii "packet // " ++ [128512]%N ++ runes_of_ascii " emoji
-x{
-    //x
-    lengthOf @calculatedFrom(""abc"")
-`u8 x,`
-    ,
-@rightPad( )
-//x
-// @lengthOf(
-float32 Packet @lengthOf( falsey ) ,	char[ 10] falsey , @tag( 3  ) repeat zchar[
-    4294967296 ] repeatCount ,repeatCount`say ""hi""` , int16 u128 // `tick` ""quote"" 'q'
-,
-char[ 3
-] crc
-@calculatedFrom( ""x y"" )
-, // trailing space 
-@leftPad
-    (
-    // " ++ [27880; 37322]%N ++ runes_of_ascii "
-    '\x00' )	match chars as i8i8 {
-    42 : charz// trailing space 
-,}
-, }  options {	} MetaData metadata { char[ 4294967296 ] i8i8	,
-    float
-    rootA , i64
-    packetx // " ++ [27880; 37322]%N ++ runes_of_ascii "
-, i8 // " ++ [27880; 37322]%N ++ runes_of_ascii "
-roots `crlf
-line`
-    ,
-    tag i64_  , uint8 Pad `" ++ [233]%N ++ runes_of_ascii "`
-, }root packet Header{
-u64 options1  `two words`
-    , @calculatedFrom(""a\\"" // trailing space 
-) // " ++ [128512]%N ++ runes_of_ascii " emoji
-i32 //	t
-x_y_z	@calculatedFrom( ""a\""b"")`tab	here` , match
-A as len { [ ""CRC32"" // " ++ [128512]%N ++ runes_of_ascii " emoji
-,""it's""  ] //	t
-: Z9_ ""a	b"" :
-    o ,
-} , match asx
-as pack {0 :	x_y_z , }
-    , char[] i64_ `{ , }`
-,
-    }
-MetaData stringy
-{ // trailing space 
-lengthOf
-// `tick` ""quote"" 'q'
-//	t
-o, string//
-u8x , f32 string_ `doc` ,}
-")).
-Eval vm_compute in ("<<<M176>>>" ++ check (runes_of_ascii "
-packet i8i8 { @tag( 0 ) int32
-leftPad `it's`
-, repeat char[]Header`crlf
-line`
-, @calculatedFrom( ""\" ++ [233]%N ++ runes_of_ascii """ )/// triple
-repeat
-    uint8 float , @rightPad
-('\x00' ) char[] zchar@lengthOf(
-// a // b
-//x
-leftPad )
-`
-` , Z9_ ,
-@lengthOf(
-x ) match As as
-    tag {	""a	b""  :
-string_ [
-10 , 7 , ""1"" , 255
-,
-3
-    , 42 ,
-    //
-    0123456789, """ ++ [128512]%N ++ runes_of_ascii """ ] :x_y_z ,""CRC32""
-: Z9_  , 00
-    // c
-    : Logon
-    ,
-} , @tag(007) o {
-    char
-    Packet
-@lengthOf(
-    //	t
-    repeatCount
-) , } , @lengthOf(
-// " ++ [27880; 37322]%N ++ runes_of_ascii "
-/// triple
-pack
-) float64 rootA `two words`
-    ,	repeat char[] BodyLength ,}
-packet Z9_{ match
-    // packet A { u8 x, }
-    As
-as
-    a1{ //
-0: trueish // `tick` ""quote"" 'q'
-,} ,
-/// triple
-// " ++ [27880; 37322]%N ++ runes_of_ascii "
-} root packet u8x {
-/// triple
-// " ++ [128512]%N ++ runes_of_ascii " emoji
-repeat
-string Logon `tab	here` , // " ++ [128512]%N ++ runes_of_ascii " emoji
-}	options { _x
-=
-    ""packet""
-;f32a =007 } packet i8i8 {@calculatedFrom( ""CRC32"" )
-A @lengthOf(
-a1
-)
-, } 	 ")).
-Eval vm_compute in ("<<<M168>>>" ++ check (runes_of_ascii "options
-//x
-// @lengthOf(
-{
-    Foo =""// no comment""
-/// triple
-//	t
-; }
-packet float {
-} packet
-    len { @lengthOf(
-    _x ) stringy{
-    metadata	@calculatedFrom( ""a\\"" )
-, } ,
-//x
-//
-}	packet asx {
-@tag( 0 ) repeat float64
-A`say ""hi""` ,
-//
-// trailing space 
-i16 int
-    `say ""hi""` , @calculatedFrom( """ ++ [128512]%N ++ runes_of_ascii """) lengthOf Header `two words` ,
-f32a
-    zchar , @rightPad
-    ( '0'
-)repeat string_
-    // packet A { u8 x, }
-    chars ``  , @tag( 4294967296)
-    @calculatedFrom( ""a	b"" )repeat
-    msg_type,  @leftPad( ) repeat f64 _x ,	repeat As { Logon @lengthOf(
-calculatedFrom) `two words` ,
-    repeat u64 o `u8 x,`	, } , @calculatedFrom(
-""packet"" ) repeat // @lengthOf(
-uint8 u ,} packet
-uint8x{@leftPad ( '0'
-    )
-//	t
-//x
-zchar[
-// packet A { u8 x, }
-// " ++ [27880; 37322]%N ++ runes_of_ascii "
-255
-    ]	metadata `a\`
-    ,//
-} // `tick` ""quote"" 'q'")).
-Eval vm_compute in ("<<<M1349>>>" ++ check (runes_of_ascii "// top
-options
-    // c0
-{ // c1a
-  // c1b
-LittleEndian // c2a
-  // c2b
-= // c3a
-  // c3b
-false // c4a
-  // c4b
-; // c5a
-  // c5b
-StringPrefixLenType // c6
-= // c7a
-  // c7b
-u16 ; } // c10
-packet Heartbeat // c12a
-  // c12b
-{ // c13a
-  // c13b
-@rightPad ( '0'
-    // c16
-) char[ 7 // c19
-] // c20
-seqNo , // c22a
-  // c22b
-uint64 // c23a
-  // c23b
-Tail , // c25a
-  // c25b
-i16 // c26
-Flags // c27a
-  // c27b
-, // c28a
-  // c28b
-u16 // c29a
-  // c29b
-msgKind
-    // c30
-,
-    // c31
-} // c32a
-  // c32b
-root // c33
-packet // c34a
-  // c34b
-Reject // c35a
-  // c35b
-{ zchar[ 3 // c38a
-  // c38b
-] // c39
-tag7 // c40a
-  // c40b
-, // c41
-repeat // c42a
-  // c42b
-Heartbeat , repeat string
-    // c46
-clOrdID
-    // c47
-,
-    // c48
-}
-    // c49
-")).
-Eval vm_compute in ("<<<M288>>>" ++ check (runes_of_ascii "// packet A { u8 x, }
-MetaData
-    _x
-{ //
-char[] len
-    ,}options
-// @lengthOf(
-//
-{ repeatCount =""""
-    ; }// c
-root packet chars {
-    char[ 255
-]u8x,	repeat
-/// triple
-// c
-string repeatCount
-`" ++ [28040; 24687; 31867; 22411]%N ++ runes_of_ascii "` ,
-repeat zchar[ 10
-]
-string_ , @tag( // trailing space 
-255
-    ) i8i8{// packet A { u8 x, }
-options1
-calculatedFrom `u8 x,`
-,
-    i64
-len,
-    roots // c
-{ // @lengthOf(
-repeat
-    // a // b
-    i64_ zchar //
-,
-    } ,
-    }
-, match chars as Packet	{
-""a\""b"": Pad
-,[ ""{,}""
-    ]
+Eval vm_compute in ("<<<M213>>>" ++ check (runes_of_ascii "
+packet body
+{@tag(
+    3 ) i16 options1 ,  repeat string
+body ,
+@calculatedFrom( // trailing space 
+""a\""b""
+) x_y_z @calculatedFrom(
+""a\\"") `it's` , match o as BodyLength
+{ 00
 :
-calculatedFrom // a // b
+pack,
+1 : u	,
+[255,255,""// no comment"" ]
+    : Packet	[ 65535 ] :  i64_ , }
+// @lengthOf(
+//
+,// a // b
+@calculatedFrom( // c
+""" ++ [233]%N ++ runes_of_ascii "t" ++ [233]%N ++ runes_of_ascii """ ) string// `tick` ""quote"" 'q'
+len `tab	here`,
+    @tag( 0123456789
+) repeat
+    //	t
+    matchKey A `a\`,
+    i8i8 Packet , stringy @calculatedFrom( ""x y"" ) ,f32a As
+`crlf
+line` ,u128{ repeat
+    int  {
+    repeat
+    zchar[255 ] a1`{ , }`
 ,
-""" ++ [233]%N ++ runes_of_ascii "t" ++ [233]%N ++ runes_of_ascii """
-//x
-// `tick` ""quote"" 'q'
-: uint8x ,[ // packet A { u8 x, }
-""`tick`"" ,0
-    , 42
-    ] : _x[ 0123456789	, ""\" ++ [233]%N ++ runes_of_ascii """
-    ] :
-i8i8,	} ,	}
-")).
-Eval vm_compute in ("<<<M260>>>" ++ check (runes_of_ascii "packet metadata{ @rightPad
-    (	) zchar[
-//	t
-// `tick` ""quote"" 'q'
-0123456789] i64_
-    // @lengthOf(
-    @calculatedFrom( ""\n"" ) , @leftPad (
-    ' '// " ++ [27880; 37322]%N ++ runes_of_ascii "
-) zchar[ // `tick` ""quote"" 'q'
-255
-]
-    MetaDataX `{ , }`// a // b
-, @rightPad (
-' ' )@calculatedFrom(""abc"" ) // " ++ [128512]%N ++ runes_of_ascii " emoji
-@lengthOf(
-matchKey
-// `tick` ""quote"" 'q'
-// `tick` ""quote"" 'q'
-)
-repeat char[ 42 ] packetx // packet A { u8 x, }
-`" ++ [233]%N ++ runes_of_ascii "` ,  trueish@calculatedFrom( ""packet"" )
-`a\` , matchKey int `" ++ [28040; 24687; 31867; 22411]%N ++ runes_of_ascii "` ,	@tag(
+// a // b
+// a // b
+match calculatedFrom as body//	t
+{
+    0 // " ++ [27880; 37322]%N ++ runes_of_ascii "
+:body	42
     // c
-    0
-) len{ char[65535 ] Header,
+    :tag // @lengthOf(
+, ""1""	:packetx , ""it's"":  roots,}, i32 u @calculatedFrom(// " ++ [128512]%N ++ runes_of_ascii " emoji
+""a\\"" ) ,
+}	,
+string_`crlf
+line`, _x  , repeat lengthOf crc ,	}, // " ++ [27880; 37322]%N ++ runes_of_ascii "
 }
-,@lengthOf( f32a ) zchar[	10  ]
-    trueish `crlf
-line` ,  }
+MetaData rootA {
+uint8	tag , string	Z9_ `u8 x,` ,
+    f64 float ,
+    Logon
+falsey`a\`
+, } packet len{  char[] u	`// not a comment`, char[] Header
+`// not a comment`	, string charz
+// a // b
+/// triple
+`tab	here` ,
+    //
+    @leftPad
+    // packet A { u8 x, }
+    ( )@lengthOf(
+a1)
+// " ++ [128512]%N ++ runes_of_ascii " emoji
+//x
+len
+crc, @leftPad ( ' ' )Packet @calculatedFrom(""" ++ [128512]%N ++ runes_of_ascii """ ) , repeat uint8 a1
+, match
+    T as As { ""packet"": Logon , [	""" ++ [128512]%N ++ runes_of_ascii """
+    , 0 ]
+: i64_ , [ ""packet"" , 7
+    ]
+    : string_ ,
+} , repeat//
+zchar[
+007 ] zchar `{ , }` ,
+    }
 ")).
-Eval vm_compute in ("<<<M1355>>>" ++ check (runes_of_ascii "options {
+Eval vm_compute in ("<<<M149>>>" ++ check (runes_of_ascii "// trailing space 
+packet
+    charz {	@calculatedFrom( ""1""
+)match x
+as tag
+    {	[
+7 , // @lengthOf(
+0
+, 65535	,
+    // `tick` ""quote"" 'q'
+    ""it's""/// triple
+,0
+    ,
+""x y"", 255 ] :tag  , [ ""1"" // a // b
+, //	t
+3  , 007, // " ++ [27880; 37322]%N ++ runes_of_ascii "
+255 ,  ""x y""
+    // @lengthOf(
+    ] :pack ,[""" ++ [233]%N ++ runes_of_ascii "t" ++ [233]%N ++ runes_of_ascii """	, 7  , 10  , 3
+, 0
+    , ""a\""b"" ] :
+    // packet A { u8 x, }
+    leftPad, [ 65535
+    // " ++ [27880; 37322]%N ++ runes_of_ascii "
+    ,
+""x y""]
+: chars [ ""\n"" ,65535 , ""a\\""
+] :
+A	, ""\n"" :
+    lengthOf , } ,
+match string_
+    as	i8i8 { 7 :msg_type , // c
+""abc"" :
+tag ,""a\""b"" :metadata, 255
+    : matchKey	,
+    [""CRC32"" ,""1""
+// " ++ [27880; 37322]%N ++ runes_of_ascii "
+// " ++ [128512]%N ++ runes_of_ascii " emoji
+, 007 , ""packet"" ,""a\\"" /// triple
+,	""a\""b""
+    // " ++ [128512]%N ++ runes_of_ascii " emoji
+    , 007 , 4294967296 ] : lengthOf , }
+,uint16
+pack , string Pad@lengthOf( o ) `say ""hi""` ,repeat i8 body
+    ,
+@lengthOf( //x
+crc ) float64 body `// not a comment`
+, repeat rootA { int16 x_y_z `tab	here` ,
+falsey @calculatedFrom( ""{,}"" ), trueish @lengthOf(
+crc) `{ , }` , }
+, match Pad as
+Header
+{
+    4294967296: Header,""\n"" :msg_type,""a	b"" :
+    x_y_z
+    , }
+,
+    //	t
+    Logon
+, } 	 ")).
+Eval vm_compute in ("<<<M1749>>>" ++ check (runes_of_ascii "
+
+  root
+    packet
+
+    packetx 
+{@tag(
+
+0 )  char[ 00 
+]
+    Z9_ 
+,
+// a // b
+falsey 
+      // c
+{
+
+    match
+x
+    as  options1
+{
+[	//	t
+  	42
+
+    , 007]:
+	uint8x
+} ,	uint8
+
+falsey 
+`crlf
+line`	, } , f64
+
+Pad
+,
+	@tag(
+	7
+)string
+Logon // " ++ [27880; 37322]%N ++ runes_of_ascii "
+	`a\`  ,
+@lengthOf(
+	lengthOf	//	t
+	)char[
+3 ]  
+  // " ++ [27880; 37322]%N ++ runes_of_ascii "
+  //
+	  calculatedFrom
+
+    @calculatedFrom(
+    """ ++ [28040; 24687]%N ++ runes_of_ascii """	) , char[]
+T 
+,//x
+  	@tag(
+
+42 
+)@leftPad(
+
+    )
+char[]
+
+trueish
+    @calculatedFrom(
+	""`tick`""
+) ,match
+// `tick` ""quote"" 'q'
+	uint8x
+	as
+	pack  {
+[ ""abc""	,
+
+""1""
+    , ""packet""
+
+    ,
+// `tick` ""quote"" 'q'
+
+	// `tick` ""quote"" 'q'
+1,
+""a\""b"" ] :As ,
+
+    """ ++ [28040; 24687]%N ++ runes_of_ascii """ :trueish
+
+    ,
+	}
+	,
+    } packet /// triple
+	charz  {repeat
+	Z9_ 
+{
+    Pad {
+
+match len
+	as 
+string_ {
+        // a // b
+	4294967296
+	:
+    msg_type  , [ 
+""// no comment"" ]	: 
+u ,	}
+,
+	}
+	,zchar[
+	65535
+
+]
+
+    As@lengthOf(	//x
+      string_
+)	,
+
+}
+
+,
+	} ")).
+Eval vm_compute in ("<<<M188>>>" ++ check (runes_of_ascii "// packet A { u8 x, }
+root
+    packet
+    leftPad { @calculatedFrom(
+    //x
+    ""`tick`"" )	@rightPad( )
+    // " ++ [128512]%N ++ runes_of_ascii " emoji
+    string_
+// `tick` ""quote"" 'q'
+// a // b
+@lengthOf(	tag
+    ) `a\` ,i64 T
+    `" ++ [233]%N ++ runes_of_ascii "`,//	t
+}
+packet
+Pad// @lengthOf(
+{ @lengthOf(	float ) char[] x@calculatedFrom(
+    ""a\""b"")
+    , // trailing space 
+@tag(
+    0// " ++ [128512]%N ++ runes_of_ascii " emoji
+) // " ++ [27880; 37322]%N ++ runes_of_ascii "
+repeatCount// packet A { u8 x, }
+,
+repeat rootA{
+_x
+    ,zchar[3 ]roots
+    /// triple
+    `crlf
+line` ,
+}
+,
+/// triple
+// a // b
+match
+    metadata as BodyLength
+    { [
+    // c
+    10 , 10 , ""a\""b"", """"	, ""\n""
+,  ""a\\"" , 4294967296]  :
+    u
+, }
+, repeat	i64_ Packet `" ++ [28040; 24687; 31867; 22411]%N ++ runes_of_ascii "`
+,@tag( // packet A { u8 x, }
+65535)
+    char[] float`it's`
+, char[7 ]
+    x @calculatedFrom( ""{,}"" ),
+    }MetaData leftPad// a // b
+{ body rootA
+`crlf
+line`
+, int64
+msg_type
+`doc`
+    , // @lengthOf(
+}
+")).
+Eval vm_compute in ("<<<M1832>>>" ++ check (runes_of_ascii "options {
+    Foo = ""// no comment"";
+}
+
+packet float {
+}
+
+packet len {
+    @lengthOf(_x)
+    stringy {
+        metadata @calculatedFrom(""a\\""),
+    },
+}
+
+packet asx {
+    @tag(0)
+    repeat float64 A `say ""hi""`,
+    //
+    // trailing space 
+    i16 int `say ""hi""`,
+    @calculatedFrom(""" ++ [128512]%N ++ runes_of_ascii """)
+    lengthOf Header `two words`,
+    f32a zchar,
+    @rightPad('0')
+    repeat string_ chars ``,
+    @tag(4294967296)
+    @calculatedFrom(""a	b"")
+    repeat msg_type,
+    @leftPad()
+    repeat f64 _x,
+    repeat As {
+        Logon @lengthOf(calculatedFrom) `two words`,
+        repeat u64 o `u8 x,`,
+    },
+    @calculatedFrom(""packet"")
+    repeat uint8 u,
+}
+
+packet uint8x {
+    @leftPad('0')
+    //	t
+    //x
+    zchar[255] metadata `a\`,//
+}// `tick` ""quote"" 'q'")).
+Eval vm_compute in ("<<<M1351>>>" ++ check (runes_of_ascii "options {
     StringPrefixLenType = u8;
-    ArrayPrefixLenType = u8;
-    FixedStringPadFromLeft = false;
+    ArrayPrefixLenType = u32;
+    FixedStringPadFromLeft = true;
     FixedStringPadChar = ' ';
 }
-packet Ack {
-    char[] tag7,
+packet Leg {
 }
-packet Reject {
-    InSym61 {
-        repeat Ack,
-        zchar[4] f1,
-    },
+packet Heartbeat {
+    zchar[6] msgKind,
+    @rightPad('0') char[3] Qty,
+    zchar[9] Side2,
+    i8 Acct,
 }
 packet Logout {
-    char[4] clOrdID,
+    int8 x,
 }
-root packet Cancel {
-    @leftPad(' ') char[10] price,
-    u8 x,
-    u32 venue @lengthOf(Body),
-    match x as Body {
-        [92, 175] : Logout,
-        26 : Reject,
-        144 : Ack,
+packet Order {
+    char[] Acct,
+    zchar[8] count,
+    u32 OrderId,
+    uint8 lastPx,
+    u16 clOrdID,
+    zchar[7] Note,
+}
+root packet Reject {
+    @leftPad(' ') char[8] Side2,
+    i8 clOrdID,
+    repeat f32 x,
+    u32 lastPx,
+    match lastPx as Body {
+        [30, 147] : Heartbeat,
+        134 : Leg,
+        183 : Logout,
+        40 : Order,
     },
-    u16 count @calculatedFrom(""CRC32""),
+    u16 Ref @calculatedFrom(""CRC32""),
 }
 ")).
-Eval vm_compute in ("<<<M1540>>>" ++ check (runes_of_ascii "packet Logon {
-    repeatCount {
-        BodyLength `crlf
-        line`,
-    },
-    zchar a1 `u8 x,`,
-    match Foo as Foo {
-        ""\n"" : i8i8,
-        [""abc"", ""CRC32""] : crc,
-        [
-            3, 42, 1, 255, ""x y"",
-            ""`tick`"", ""a\""b"", ""CRC32""
-        ] : repeatCount,
-        [
-            1, 007, 007, 7, 255,
-            ""\n"", ""// no comment""
-        ] : uint8x,
-        00 : f32a,
-    },
-    // a // b
-    uint16 Pad @lengthOf(uint8x) `doc`,
-}")).
-Eval vm_compute in ("<<<M68>>>" ++ check (runes_of_ascii "
-packet
-    Header {  match roots  as packetx
-// " ++ [27880; 37322]%N ++ runes_of_ascii "
-//	t
-{
-    // `tick` ""quote"" 'q'
-    [
-""" ++ [28040; 24687]%N ++ runes_of_ascii """ ,
-    0123456789 ]:packetx,
-//
-// c
-4294967296
-    : Logon ,	[ ""\n""
-    ,""x y"" , // " ++ [128512]%N ++ runes_of_ascii " emoji
-""packet"" , ""packet"" ] : i8i8 , 42 // `tick` ""quote"" 'q'
-:Foo
-    ,
-}, //	t
-@calculatedFrom( ""x y""	) f64 Logon ,} options
-    {
+Eval vm_compute in ("<<<M342>>>" ++ check (runes_of_ascii "root packet Z9_	{  repeat i8i8 int`// not a comment`
+,	uint8x
+    // c
+    , f64 i8i8  `tab	here` ,@tag(
+3 ) @tag( 3 ) @tag( /// triple
+10
+// trailing space 
+// trailing space 
+) repeat int{ MetaDataX // " ++ [27880; 37322]%N ++ runes_of_ascii "
+,} , @tag( 10
+    ) int8
+    pack@lengthOf(x
+    ), Logon ,	@tag( 00
+) repeat
+rootA
+uint8x ,  @calculatedFrom( ""\n"" // a // b
+) // `tick` ""quote"" 'q'
+@lengthOf( len )
+// @lengthOf(
+// `tick` ""quote"" 'q'
+BodyLength  { matchKey f32a
+//x
+// `tick` ""quote"" 'q'
+`say ""hi""` ,} ,  char[] leftPad `{ , }` ,
+@lengthOf( float )match repeatCount as	o { 255 : matchKey ,
     // " ++ [128512]%N ++ runes_of_ascii " emoji
-    chars=
-' '
-    ; repeatCount =
-""" ++ [233]%N ++ runes_of_ascii "t" ++ [233]%N ++ runes_of_ascii """ x	= ""\n"" ; calculatedFrom = ""`tick`"" //x
-; }
+    00:	A 007 :
+    options1 } , }
 ")).
-Eval vm_compute in ("<<<M303>>>" ++ check (runes_of_ascii "  packet
-    tag{ } packet
-    //
-    packetx { @calculatedFrom( ""x y""
-    )@tag(
-    42 )
-@lengthOf(
-    As  ) char a1`two words` ,
-    @leftPad
-(
-    '\x00' )
-    @tag(10)
-@lengthOf( u)
-    char[] falsey // " ++ [128512]%N ++ runes_of_ascii " emoji
-,
-    // " ++ [27880; 37322]%N ++ runes_of_ascii "
-    }//
-MetaData
-f32a {
-    string u128 , roots
-    stringy , Header body,
-    float options1
-    //	t
-    `it's`
-    ,	i8i8 options1
-`" ++ [28040; 24687; 31867; 22411]%N ++ runes_of_ascii "`
-    ,
-}")).
-Eval vm_compute in ("<<<M245>>>" ++ check (runes_of_ascii "MetaData float{ int16
-// c
-// " ++ [128512]%N ++ runes_of_ascii " emoji
-chars , int8 _x
-, char	charz ,
-Header  u8x
-    , u16 _x
-,
-    // @lengthOf(
-    x_y_z repeatCount ,}	packet Foo
-{ @tag(//	t
-1  )
-string Logon	`
-`
-, }//x
-options{ zchar =  ' ' trueish = //x
-""""
-    leftPad =255 ;
-}	root packet options1 {u64 packetx// `tick` ""quote"" 'q'
-@calculatedFrom(""// no comment""  ) ``,}
-")).
-Eval vm_compute in ("<<<M1906>>>" ++ check (runes_of_ascii "packet As {
-    @leftPad()
-    char[0] Logon,
-    char[0] Z9_ @calculatedFrom(""abc""),
-    @tag(4294967296)
-    i64 matchKey @calculatedFrom(""// no comment"") `two words`,
-    i16 A,
-}// " ++ [27880; 37322]%N ++ runes_of_ascii "
-
-packet T {
-    zchar[3] tag @lengthOf(chars),
-}
-
-packet BodyLength {
-    calculatedFrom @lengthOf(body) `
-    `,
-}// a // b")).
-Eval vm_compute in ("<<<M1738>>>" ++ check (runes_of_ascii "packet Logon {
-    o Header,
-    Header,
-    @lengthOf(u)
-    char[255] tag `tab	here`,
-    char[] falsey,
-    @lengthOf(zchar)
-    @rightPad()
-    float roots,
-    @calculatedFrom(""// no comment"")
-    i64 u8x,
-}
-
-options {
-    metadata = '0';
-    _x = 4294967296;
-    Packet = '0';
-}")).
-Eval vm_compute in ("<<<M1291>>>" ++ check (runes_of_ascii "// top
-root
-    // c0
-packet
-    // c1
-P // c2a
-  // c2b
-{ // c3
-u8 // c4
-s_u8 // c5a
-  // c5b
-, // c6
-repeat u8 // c8a
-  // c8b
-r_u8 // c9a
-  // c9b
-,
-    // c10
-u16 // c11a
-  // c11b
-b_len // c12a
-  // c12b
-, // c13a
-  // c13b
-} // c14a
-  // c14b
-")).
-Eval vm_compute in ("<<<M124>>>" ++ check (runes_of_ascii "MetaData Z9_
-{zchar[4294967296 ]
-    leftPad `u8 x,`,
-}
-MetaData body { trueish
-    len `// not a comment` , }root
-packet // @lengthOf(
-u8x{ char[ 10 ] x
-    @calculatedFrom(
-// a // b
-// packet A { u8 x, }
-""\" ++ [233]%N ++ runes_of_ascii """ ) , }
-")).
-Eval vm_compute in ("<<<M1311>>>" ++ check (runes_of_ascii "options {
+Eval vm_compute in ("<<<M1333>>>" ++ check (runes_of_ascii "options {
+    LittleEndian = false;
+    ArrayPrefixLenType = u8;
+    FixedStringPadFromLeft = true;
     FixedStringPadChar = '0';
 }
-packet Q {
-    zchar[4] z,
-    @rightPad('\x00') char[3] n,
-    char[5] d,
+packet Heartbeat {
+    string lastPx,
+    uint8 Qty,
+    i64 Acct,
+    char[4] Ref,
 }
-root packet R {
-    Q,
-    zchar[8] top,
-    repeat zchar[2] zs,
+packet Fill {
+    uint8 Ref,
+    Heartbeat,
+    f32 OrderId,
+    repeat f32 x,
+}
+root packet Order {
+    zchar[2] OrderId,
+    zchar[2] Acct,
+    zchar[1] Note,
+    zchar[9] Qty,
+    string price,
+    string tag7,
+    u32 x,
+    match x as Body {
+        123 : Fill,
+        112 : Heartbeat,
+    },
+    u32 seqNo @calculatedFrom(""CRC32""),
 }
 ")).
-Eval vm_compute in ("<<<M1872>>>" ++ check (runes_of_ascii "root packet
+Eval vm_compute in ("<<<M1340>>>" ++ check (runes_of_ascii "options {
+    ArrayPrefixLenType = u64;
+    FixedStringPadFromLeft = true;
+    FixedStringPadChar = '0';
+}
+packet Quote {
+}
+packet Ack {
+    repeat InNote66 {
+        u8 pad0,
+    },
+}
+packet Reject {
+}
+root packet Order {
+    Quote,
+    repeat Reject,
+    string venue,
+    string seqNo,
+    uint32 Ref,
+    u16 lastPx,
+    u32 clOrdID @lengthOf(Body),
+    match lastPx as Body {
+        190 : Reject,
+        186 : Quote,
+        22 : Ack,
+    },
+    u16 Flags @calculatedFrom(""CR\
+C32""),
+}
+")).
+Eval vm_compute in ("<<<M1365>>>" ++ check (runes_of_ascii "
+options
 
-lengthOf{
+{LittleEndian
+=true	; StringPrefixLenType= u64 ;
 
-@leftPad
-	(  ' ' // c
-	)  repeat 
-char	MetaDataX 
-, } MetaData Pad
+ArrayPrefixLenType
+
+=u16;
+
+    FixedStringPadFromLeft=false ; FixedStringPadChar
+    = ' '
+
+;
+
+}
+    packet Logon
+
+{ zchar[ 5 ]
+
+Side2  ,
+    }root
+
+packet	Logout
 
 {
-    msg_type 
-rootA // trailing space 
-  `// not a comment`,
+repeat
+    i64 Tail
 
-    }")).
-Eval vm_compute in ("<<<M1447>>>" ++ check (runes_of_ascii "// @len'1'gthOf(
-packet i8i8 {
-    u128 o,
+    ,	Logon
+	, repeat 
+i16
+
+OrderId
+    , char[] venue  , 
+uint64 
+x
+,
+    repeat	i16 count
+, u8 Flags, match Flags
+    as	Body  { 25 :
+    Logon	,	}	, u16 Qty
+@calculatedFrom( ""CRC32"")
+, 
 }
 
-options {
-    MetaDataX = true;
-    BodyLength = ""packet""
-    x_y_z = 007
-    crc = ""abc"";
-    msg_type = i16
+")).
+Eval vm_compute in ("<<<M101>>>" ++ check (runes_of_ascii "MetaData T {  a1 Packet,// " ++ [128512]%N ++ runes_of_ascii " emoji
+uint8x
+// @lengthOf(
+//x
+Pad `" ++ [233]%N ++ runes_of_ascii "` , a1
+    // " ++ [27880; 37322]%N ++ runes_of_ascii "
+    MetaDataX ,	zchar[00]metadata`u8 x,` ,Pad// trailing space 
+x `
+` ,
+    i8
+u8x ,
+}  options { As =
+    false;}root packet options1 { @calculatedFrom( ""// no comment"" ) @lengthOf( _x	)
+    @tag(007 ) repeat
+// trailing space 
+// @lengthOf(
+f32 i8i8
+    `" ++ [233]%N ++ runes_of_ascii "` ,
+    @rightPad	( ' '// " ++ [27880; 37322]%N ++ runes_of_ascii "
+) repeat Pad , }
+")).
+Eval vm_compute in ("<<<M1475>>>" ++ check (runes_of_ascii "options {
+    T = zchar[42]
+    options1 = uint8;
+    lengthOf = char[4294967296];
+}
+
+packet Z9_ {
+    repeat MetaDataX `crlf
+        line`,
+    repeat string x_y_z,
+    u32 x,// `tick` ""quote"" 'q'
+    @tag(00)
+    repeat i64 Logon,
+    u8x f32a,
+    repeat lengthOf ``,
+    repeat stringy Pad `
+        `,
+    repeat string_ chars `// not a comment`,
 }")).
-Eval vm_compute in ("<<<M1272>>>" ++ check (runes_of_ascii "
-options{
-LittleEndian=
+Eval vm_compute in ("<<<M1636>>>" ++ check (runes_of_ascii "packet tag {
+}
 
-true; } packet
-	B	{
-u8 a
+packet packetx {
+    @calculatedFrom(""x y"")
+    @tag(42)
+    @lengthOf(As)
+    char a1 `two words`,
+    @leftPad('\x00')
+    @tag(10)
+    @lengthOf(u)
+    char[] falsey,
+}//
 
+MetaData f32a {
+    string u128,
+    roots stringy,
+    Header body,
+    float options1 `it's`,
+    i8i8 options1 `" ++ [28040; 24687; 31867; 22411]%N ++ runes_of_ascii "`,
+}")).
+Eval vm_compute in ("<<<M35>>>" ++ check (runes_of_ascii "  packet Header
+{ @calculatedFrom( // a // b
+""a	b"" )
+char[
+    255] falsey `tab	here`,int8
+    // " ++ [27880; 37322]%N ++ runes_of_ascii "
+    u
+`doc` , float32 lengthOf
+    @calculatedFrom(
+""a	b""  )
+    // a // b
+    , @rightPad (
+' '  ) @tag( 3
+) float64 asx
     ,
-string  s, 
-}	root
+int8 metadata @lengthOf(zchar )// a // b
+,Pad f32a , }")).
+Eval vm_compute in ("<<<M1372>>>" ++ check (runes_of_ascii "
+options  {
+    LittleEndian
+= true
+;
+}packet
+	Logon{ 
+u8
+	x	, 
+string  user, }packet  Logout	{
 
-packet
+u16  reason, } 
+packet	Empty  {} root packet
+    Frame
+{	u16
+MsgType
+,  u8 BodyLen 
+@lengthOf( Body )	, u8
+	flags, 
+Logon
 
-P
-
-{ u16
-    L
-    @lengthOf(
-
-    B
-)
-,
-B,
-    u8
-t ,  }")).
-Eval vm_compute in ("<<<M1709>>>" ++ check (runes_of_ascii "packet string_ {
-    @lengthOf(float)
-    // @lengthOf(
-    BodyLength {
-        match uint8x as i64_ {
-            0123456789 : As,
-        },
+Body ,
+    u32	trailer
+	, } ")).
+Eval vm_compute in ("<<<M1318>>>" ++ check (runes_of_ascii "packet FooBar // c1
+{ u8 a ,
+    // c5
+} // c6
+packet foo_bar // c8a
+  // c8b
+{
+    // c9
+u16
+    // c10
+b , // c12a
+  // c12b
+} // c13
+root // c14
+packet R { // c17a
+  // c17b
+FooBar ,
+    // c19
+foo_bar // c20
+, } ")).
+Eval vm_compute in ("<<<M311>>>" ++ check (runes_of_ascii "MetaData
+falsey { Header falsey
+`
+` , string Foo `" ++ [28040; 24687; 31867; 22411]%N ++ runes_of_ascii "`
+    // `tick` ""quote"" 'q'
+    ,falsey repeatCount , i8
+u , }
+packet A	{ match _x as T { 007: lengthOf// `tick` ""quote"" 'q'
+}, } 	 ")).
+Eval vm_compute in ("<<<M1876>>>" ++ check (runes_of_ascii "packet A {
+    match k as n {
+        [
+            1, 007, 5, 7, 9,
+            11, ""bb"", ""d"", ""f"", ""h"",
+            ""j"", ""l""
+        ] : B,
+        2 : C,
     },
 }")).
-Eval vm_compute in ("<<<M467>>>" ++ check (runes_of_ascii "packet uint8x
+Eval vm_compute in ("<<<M1694>>>" ++ check (runes_of_ascii "root packet body {
+    repeat i8i8 `it's`,
+}
+
+packet chars {
+    @rightPad('\x00')
+    // `tick` ""quote"" 'q'
+    leftPad {
+        char[10] asx `" ++ [233]%N ++ runes_of_ascii "`,
+    },
+}")).
+Eval vm_compute in ("<<<M651>>>" ++ check (runes_of_ascii "// @lengthOf(
+packet i8i8 { u128 o , }
+options { MetaDataX MetaDataX = true;
+    BodyLength =""packet"" x_y_z= 007
+crc //x
+= ""abc"" ;
+    msg_type =
+i16 }")).
+Eval vm_compute in ("<<<M539>>>" ++ check (runes_of_ascii "packet uint8x
+{ match pack
+    as msg_type	{
+    0123456789 :	float
+}
+,
+} p" ++ [8232]%N ++ runes_of_ascii "acket //	t
+a1
+    { } options {packetx
+    = '\x00'	; u128= ""a	b""  ; }
+")).
+Eval vm_compute in ("<<<M487>>>" ++ check (runes_of_ascii "packet uint8x
 { match pack
     as msg_type	{
     0123456789 :	float
 }
 ,
 } packet //	t
-{
-    a1 } options {packetx
+a1
+    { } options packetx{
     = '\x00'	; u128= ""a	b""  ; }
 ")).
-Eval vm_compute in ("<<<M525>>>" ++ check (runes_of_ascii "packet uint8x
+Eval vm_compute in ("<<<M702>>>" ++ check (runes_of_ascii "// @lengthOf(
+packet i8i8 { u128 o , }
+options { MetaDataX = true;
+    BodyLength =""packet"" x_y_z= 007
+crc //x
+= ""abc"" ""abc"" ;
+    msg_type =
+i16 }")).
+Eval vm_compute in ("<<<M661>>>" ++ check (runes_of_ascii "// @lengthOf(
+packet i8i8 { u128 o o , }
+options { MetaDataX = true;
+    BodyLength =""packet"" x_y_z= 007
+crc //x
+= ""abc"" ;
+    msg_type =
+i16 }")).
+Eval vm_compute in ("<<<M529>>>" ++ check (runes_of_ascii "packet uint8x
 { match pack
     as msg_type	{
     0123456789 :	float
@@ -848,238 +896,215 @@ Eval vm_compute in ("<<<M525>>>" ++ check (runes_of_ascii "packet uint8x
 } packet //	t
 a1
     { } options {packetx
-    = '\x00'	; u128= ""a	b""   }
-")).
-Eval vm_compute in ("<<<M1694>>>" ++ check (runes_of_ascii "packet A {
+    = '\x00'	; u128= ""a	b""")).
+Eval vm_compute in ("<<<M98>>>" ++ check (runes_of_ascii "
+packet stringy {
+}
+MetaData u8x	{ zchar[ 65535
+    // a // b
+    ] Pad ,stringy string_
+`u8 x,` ,	u8 lengthOf`
+` , char[ 255
+] pack , } 	 ")).
+Eval vm_compute in ("<<<M1642>>>" ++ check (runes_of_ascii "packet A {
     match k as n {
         [
-            22, 4, 66, 8, 10,
-            ""a"", ""c c"", ""e"", ""g"", ""i""
+            22, 4, 66, ""a"", ""c c"",
+            ""e"", ""g""
         ] : B,
         2 : C,
     },
 }")).
-Eval vm_compute in ("<<<M1429>>>" ++ check (runes_of_ascii "MetaData
-leftPad
+Eval vm_compute in ("<<<M1440>>>" ++ check (runes_of_ascii "
+packet
 
-    { chars
-MetaDataX,	}
-packet  repeatCount{
-char[ 
-	// c
-	255
-	]
+    A
 
-    uint8x
-`" ++ [233]%N ++ runes_of_ascii "` , }	MetaData
-
-pack {As	Foo
-, 
-}
-
-")).
-Eval vm_compute in ("<<<M710>>>" ++ check (runes_of_ascii "// @lengthOf(
-packet i8i8 { u128 o , }
-options { MetaDataX = true;
-    BodyLength =""packet"" x_y_z= 007
-crc //x
-= ""abc"" ;
-    msg_type 
-i16 }")).
-Eval vm_compute in ("<<<M1406>>>" ++ check (runes_of_ascii "packet Logon {
-    repeat u {
-        zchar {
-            zchar[007] a1 ``,
-            x_y_z @calculatedFrom(""{,}""),
-        },
-    },
-}")).
-Eval vm_compute in ("<<<M1562>>>" ++ check (runes_of_ascii "MetaData x_y_z {
-    int32 o,
-    zchar[65535] Packet,
-    i64_ o,
-    i64 o `
-    `,
-}
-
-options {
-    x = u8;
-}// trailing space")).
-Eval vm_compute in ("<<<M171>>>" ++ check (runes_of_ascii "options { Pad=	'\x00' ; u
-= false  repeatCount
-    = false ;// trailing space 
-T
-=// a // b
-""CRC32"" ;
-    a1 = ""it's""}
-")).
-Eval vm_compute in ("<<<M1163>>>" ++ check (runes_of_ascii "MetaData leftPad { chars MetaDataX , } packet repeatCount { char[ // c
-255 ] uint8x `" ++ [233]%N ++ runes_of_ascii "` , } MetaData pack { As Foo , }")).
-Eval vm_compute in ("<<<M1484>>>" ++ check (runes_of_ascii "
-
-  packet uint8x
     {
-    match
+match k
 
-pack
+    as n 
+{ [  1 , 22
+,007 
+, 4	,  5
 
-    as
-msg_type
-{ 0123456789
-
-    :  float
-	} 
-, }  packet //	t
-
-a1	{}
-")).
-Eval vm_compute in ("<<<M910>>>" ++ check (runes_of_ascii "packet A {
-  match k as n {
-    [""a"", 22, ""c c"", 4, ""e"", 66, ""g"", 8, ""i"", 10, ""k"", 12] : B,
-    2 : C
-  },
-}")).
-Eval vm_compute in ("<<<M912>>>" ++ check (runes_of_ascii "packet A {
-  match k as n {
-    [1, 22, ""c c"", 4, 5, ""f"", 7, 8, ""i"", 10, 11, ""l""] : B,
-    2 : C
-  },
-}")).
-Eval vm_compute in ("<<<M885>>>" ++ check (runes_of_ascii "packet A {
-  match k as n {
-    [""a"", 22, ""c c"", 4, ""e"", 66, ""g"", 8, ""i"", 10] : B
-    2 : C
-  },
-}")).
-Eval vm_compute in ("<<<M610>>>" ++ check (runes_of_ascii "
-packet
-    asx {match u128 as lengthOf
-{
-//	t
-// `tick` ""quote"" 'q'
-255 : x repeat
-    } ,	}")).
-Eval vm_compute in ("<<<M603>>>" ++ check (runes_of_ascii "
-packet
-    asx {match u128 as lengthOf
-{
-//	t
-// `tick` ""quote"" 'q'
-255 : x x ,
-    } ,	}")).
-Eval vm_compute in ("<<<M569>>>" ++ check (runes_of_ascii "
-packet
-    asx {u128 match as lengthOf
-{
-//	t
-// `tick` ""quote"" 'q'
-255 : x ,
-    } ,	}")).
-Eval vm_compute in ("<<<M625>>>" ++ check (runes_of_ascii "
-packet
-    asx {match u128 as lengthOf
-{
-//	t
-// `tick` ""quote"" 'q'
-255 : x ,
-    } ,")).
-Eval vm_compute in ("<<<M556>>>" ++ check (runes_of_ascii "
 ,
+    66
+    ,
+7
+,  8
+]:
+
+B,
+    2
+
+:
+C
+} ,} ")).
+Eval vm_compute in ("<<<M1147>>>" ++ check (runes_of_ascii "MetaData leftPad { // c
+chars MetaDataX , } packet repeatCount { char[ 255 ] uint8x `" ++ [233]%N ++ runes_of_ascii "` , } MetaData pack { As Foo , }")).
+Eval vm_compute in ("<<<M1179>>>" ++ check (runes_of_ascii "MetaData leftPad { chars MetaDataX , } packet repeatCount { char[ 255 ] uint8x `" ++ [233]%N ++ runes_of_ascii "` , } MetaData pack // c
+{ As Foo , }")).
+Eval vm_compute in ("<<<M893>>>" ++ check (runes_of_ascii "packet A {
+  match k as n {
+    [""a"", ""bb"", ""c c"", ""d"", ""e"", ""f"", ""g"", ""h"", ""i"", ""j"", ""k""] : B,
+    2 : C
+  },
+}")).
+Eval vm_compute in ("<<<M902>>>" ++ check (runes_of_ascii "packet A {
+  match k as n {
+    [""a"", ""bb"", 007, ""d"", ""e"", 66, ""g"", ""h"", 9, ""j"", ""k""] : B
+    2 : C
+  },
+}")).
+Eval vm_compute in ("<<<M867>>>" ++ check (runes_of_ascii "packet A {
+  match k as n {
+    [""a"", ""bb"", ""c c"", ""d"", ""e"", ""f"", ""g"", ""h"", ""i""] : B,
+    2 : C
+  },
+}")).
+Eval vm_compute in ("<<<M1304>>>" ++ check (runes_of_ascii "
+packet order_item
+
+{  u8
+a
+
+    , } root
+packet
+
+    new_order{ order_item
+	,  u8
+x ,
+
+}
+
+")).
+Eval vm_compute in ("<<<M389>>>" ++ check (runes_of_ascii "root packet SimpleMessage {
+    uint16 MsgType `" ++ [28040; 24687; 31867; 22411]%N ++ runes_of_ascii "`,
+    string JsonBody `Json" ++ [23383; 31526; 20018; 28040; 24687; 20307]%N ++ runes_of_ascii "`,
+}")).
+Eval vm_compute in ("<<<M618>>>" ++ check (runes_of_ascii "
+packet
     asx {match u128 as lengthOf
 {
 //	t
 // `tick` ""quote"" 'q'
 255 : x ,
+    } , ,	}")).
+Eval vm_compute in ("<<<M599>>>" ++ check (runes_of_ascii "
+packet
+    asx {match u128 as lengthOf
+{
+//	t
+// `tick` ""quote"" 'q'
+255 x : ,
     } ,	}")).
-Eval vm_compute in ("<<<M1766>>>" ++ check (runes_of_ascii "packet A {
-    match k as n {
-        [1, 007, ""bb""] : B,
-        2 : C,
-    },
-}")).
-Eval vm_compute in ("<<<M803>>>" ++ check (runes_of_ascii "packet A {
+Eval vm_compute in ("<<<M845>>>" ++ check (runes_of_ascii "packet A {
   match k as n {
-    [""a"", ""bb"", ""c c"", ""d""] : B
+    [""a"", 22, ""c c"", 4, ""e"", 66, ""g""] : B,
     2 : C
   },
 }")).
-Eval vm_compute in ("<<<M890>>>" ++ check (runes_of_ascii "packet A { Inner { match k as n { [1,22,007,4,5,66,7,8,9,10] : B, }, }, }")).
-Eval vm_compute in ("<<<M795>>>" ++ check (runes_of_ascii "packet A {
+Eval vm_compute in ("<<<M1302>>>" ++ check (runes_of_ascii "packet order_item {
+    u8 a,
+}
+root packet new_order {
+    order_item,
+    u8 x,
+}
+")).
+Eval vm_compute in ("<<<M831>>>" ++ check (runes_of_ascii "packet A {
   match k as n {
-    [1, 22, ""c c""] : B,
+    [1, ""bb"", 007, ""d"", 5, ""f""] : B
     2 : C
   },
 }")).
-Eval vm_compute in ("<<<M1101>>>" ++ check (runes_of_ascii "// top
+Eval vm_compute in ("<<<M903>>>" ++ check (runes_of_ascii "packet A { Inner { match k as n { [1,22,007,4,5,66,7,8,9,10,11] : B, }, }, }")).
+Eval vm_compute in ("<<<M1820>>>" ++ check (runes_of_ascii "packet  A  {	B
+
+    { 	 // a
+
+u8
+x
+, 	 // b
+  }	// c
+    ,	// d
+  }
+")).
+Eval vm_compute in ("<<<M791>>>" ++ check (runes_of_ascii "packet A {
+  match k as n {
+    [1, ""bb"", 007] : B,
+    2 : C
+  },
+}")).
+Eval vm_compute in ("<<<M1127>>>" ++ check (runes_of_ascii "// top
+MetaData
+    // c0
+u
+    // c1
+{ // c2a
+  // c2b
+} // c3
+")).
+Eval vm_compute in ("<<<M1102>>>" ++ check (runes_of_ascii "// top
 MetaData
     // c0
 tag
     // c1
-{
-    // c2
+{ // c2
 }
     // c3
 ")).
-Eval vm_compute in ("<<<M439>>>" ++ check (runes_of_ascii "packet uint8x
-{ match pack
-    as msg_type	{
-    0123456789")).
-Eval vm_compute in ("<<<M1419>>>" ++ check (runes_of_ascii "// top
-MetaData // c0
-		u	// c1
-	{ 	 // c2
-    }	// c3")).
-Eval vm_compute in ("<<<M1205>>>" ++ check (runes_of_ascii "packet body { i32 // c
-f32a `{ , }` , } options { }")).
-Eval vm_compute in ("<<<M1257>>>" ++ check (runes_of_ascii "
-root	packet
+Eval vm_compute in ("<<<M1245>>>" ++ check (runes_of_ascii "root
+    packet	P
+{repeat
 
-P	{
-	hdr {u8  a,
-}  ,u8 
-x , 
+char 
+cs  ,u8
+
+    x ,} ")).
+Eval vm_compute in ("<<<M1213>>>" ++ check (runes_of_ascii "packet body { i32 f32a `{ , }` , } // c
+options { }")).
+Eval vm_compute in ("<<<M1515>>>" ++ check (runes_of_ascii "  // top
+
+packet 	 // c0
+  	x 
+{// c2
+	}
+// c3")).
+Eval vm_compute in ("<<<M1066>>>" ++ check (runes_of_ascii "packet A {
+    u8 x,    // c    u8 y,
+}")).
+Eval vm_compute in ("<<<M1081>>>" ++ check (runes_of_ascii "options { a = 1; // a
+ b = 2 // b
+ }")).
+Eval vm_compute in ("<<<M1673>>>" ++ check (runes_of_ascii "packet A {
+    u8 x `d" ++ [133]%N ++ runes_of_ascii "`,// c" ++ [133]%N ++ runes_of_ascii "
+}")).
+Eval vm_compute in ("<<<M1076>>>" ++ check (runes_of_ascii "MetaData M {
+}// c
+packet A {}")).
+Eval vm_compute in ("<<<M1798>>>" ++ check (runes_of_ascii "
+
+  packet
+
+A {}	// c" ++ [65279]%N ++ runes_of_ascii "
+ 
+")).
+Eval vm_compute in ("<<<M63>>>" ++ check (runes_of_ascii "packet i64_
+    { }
+
+")).
+Eval vm_compute in ("<<<M1061>>>" ++ check (runes_of_ascii "packet A {
 }
-")).
-Eval vm_compute in ("<<<M1883>>>" ++ check (runes_of_ascii "root
-    packet
-
-    A
-{
-
-u8 x`x
-`
-,	}
-")).
-Eval vm_compute in ("<<<M1493>>>" ++ check (runes_of_ascii "
-options
-
-    {
-
-    }// " ++ [128512]%N ++ runes_of_ascii " emoji")).
-Eval vm_compute in ("<<<M1063>>>" ++ check (runes_of_ascii "packet A {
- u8 x `d x`, // c x
-}")).
-Eval vm_compute in ("<<<M1033>>>" ++ check (runes_of_ascii "packet A {
- u8 x `d" ++ [11]%N ++ runes_of_ascii "`, // c" ++ [11]%N ++ runes_of_ascii "
-}")).
-Eval vm_compute in ("<<<M1838>>>" ++ check (runes_of_ascii "MetaData 	 // c
-  tag
-{}
-")).
-Eval vm_compute in ("<<<M1111>>>" ++ check (runes_of_ascii "MetaData tag { } // c
-")).
-Eval vm_compute in ("<<<M1508>>>" ++ check (runes_of_ascii "
-packet 
-A { }	// c" ++ [8203]%N)).
-Eval vm_compute in ("<<<M997>>>" ++ check (runes_of_ascii "// c" ++ [5760]%N ++ runes_of_ascii "
-packet A {
-}")).
-Eval vm_compute in ("<<<M1649>>>" ++ check (runes_of_ascii "packet packetx {
-}")).
-Eval vm_compute in ("<<<M310>>>" ++ check (runes_of_ascii "
-MetaData A {}
-")).
-Eval vm_compute in ("<<<M750>>>" ++ check (runes_of_ascii "uk%W,3^r>l")).
-Eval vm_compute in ("<<<M111>>>" ++ check (runes_of_ascii "
-
-")).
+// c x")).
+Eval vm_compute in ("<<<M1016>>>" ++ check (runes_of_ascii "packet A {
+}
+// c" ++ [8233]%N)).
+Eval vm_compute in ("<<<M984>>>" ++ check (runes_of_ascii "packet A {
+}// c" ++ [160]%N)).
+Eval vm_compute in ("<<<M566>>>" ++ check (runes_of_ascii "
+packet
+    asx")).
+Eval vm_compute in ("<<<M741>>>" ++ check ([65533; 65533]%N ++ runes_of_ascii "1" ++ [65533]%N ++ runes_of_ascii "dcV")).
+Eval vm_compute in ("<<<M1442>>>" ++ check (runes_of_ascii "// c")).
